@@ -46,6 +46,13 @@ CLAIMED = {
             'thorough; the loop body is identical for every step), through GHE.simulate including unit factors; corollaries; hourly branch '
             'axis/load consistency for every horizon 1..360 and three call histories.',
             'g and ln uninterpreted; floats as reals; numpy replaced by exact list facade', '3/C09', None),
+    'C10': ('Structural clauses for all geometries (symbolic radii, conductivities, capacities; production 535-cell mesh and a second mesh): '
+            'gap-free tiling from the fluid core to 10 m, fluid thermal mass, layer resistances summing to R_b*. Dynamic clauses by one '
+            'inductive step from an arbitrary state on reduced meshes of 4 (quick) / 12 (thorough) concrete boreholes: energy stored = injected '
+            '- outflow (1e-6), T >= T_init preserved, monotone step, g formula; induction gives non-decreasing g, g_bhw >= 0, g >= -2 pi k R_b*.',
+            'NOT claimed: 0.5 % agreement with a fine-mesh solution, finiteness in floats, resampling accuracy. dgtsv replaced by its contract; '
+            'coefficients = the binary64 values computed, taken as exact rationals; dynamic clauses on 17/24-cell meshes only (34 cells: z3 '
+            'unknown).', '3/C10', None),
     'C11': ('Decidable part: joined axis strictly increasing, long-time points reproduced with radius-corrected values, short-time points kept '
             'exactly below the first long-time point (1..8 symbolic short-time points against the Eskilson axis and a symbolic axis); '
             'interpolation at a stored height returns the stored curve and radius for 1..5 symbolic stored heights (native replay with the '
